@@ -166,42 +166,131 @@ package cache
 //@   ensures [miss]  err != nil ==> hc.status == StatusUnknown
 //@   ensures [nostore] (hc.store == nil || len(hc.key) == 0) ==> hc.status == StatusUnknown && err == nil
 
+// ---- persistence format (cache.go, http_cache.go, http_response.go) (C09) ---------------------
+
+// ---- format specification: one parser function per field, mirroring the sequential reads ----
+//@ spec func u32(v int) int := uint32(v)
+//@ spec func encEntry(status int, resp Bytes, created int, expired int) Bytes := bcat(be32(uint32(status)), bcat(be32(uint32(blen(resp))), bcat(resp, bcat(be64(uint64(created)), be64(uint64(expired))))))
+//@ spec func pStatus(d Bytes) int := de32(btake(d, 4))
+//@ spec func pRespLen(d Bytes) int := de32(btake(bdrop(d, 4), 4))
+//@ spec func pAfterLen(d Bytes) Bytes := bdrop(bdrop(d, 4), 4)
+//@ spec func pRespTake(d Bytes) int := imin(pRespLen(d), blen(pAfterLen(d)))
+//@ spec func pResp(d Bytes) Bytes := btake(pAfterLen(d), pRespTake(d))
+//@ spec func pAfterResp(d Bytes) Bytes := bdrop(pAfterLen(d), pRespTake(d))
+//@ spec func pCreated(d Bytes) int := wrap64(de64(btake(pAfterResp(d), 8)))
+//@ spec func pExpired(d Bytes) int := wrap64(de64(btake(bdrop(pAfterResp(d), 8), 8)))
+//@ pred entryShort(d Bytes) := blen(d) < 4 || blen(bdrop(d, 4)) < 4 || blen(pAfterResp(d)) < 8 || blen(bdrop(pAfterResp(d), 8)) < 8
+//@ spec func rSrvLen(d Bytes) int := de32(btake(d, 4))
+//@ spec func rPreSrv(d Bytes) Bytes := bdrop(d, 4)
+//@ spec func rSrvTake(d Bytes) int := imin(rSrvLen(d), blen(rPreSrv(d)))
+//@ spec func rSrv(d Bytes) Bytes := btake(rPreSrv(d), rSrvTake(d))
+//@ spec func rAfterSrv(d Bytes) Bytes := bdrop(rPreSrv(d), rSrvTake(d))
+//@ spec func rMin(d Bytes) int := de32(btake(rAfterSrv(d), 4))
+//@ spec func rAfterMin(d Bytes) Bytes := bdrop(rAfterSrv(d), 4)
+//@ spec func rFiltLen(d Bytes) int := de32(btake(rAfterMin(d), 4))
+//@ spec func rPreFilt(d Bytes) Bytes := bdrop(rAfterMin(d), 4)
+//@ spec func rFiltTake(d Bytes) int := imin(rFiltLen(d), blen(rPreFilt(d)))
+//@ spec func rFilt(d Bytes) Bytes := btake(rPreFilt(d), rFiltTake(d))
+//@ spec func rAfterFilt(d Bytes) Bytes := bdrop(rPreFilt(d), rFiltTake(d))
+//@ spec func rHdrLen(d Bytes) int := de32(btake(rAfterFilt(d), 4))
+//@ spec func rPreHdr(d Bytes) Bytes := bdrop(rAfterFilt(d), 4)
+//@ spec func rHdrTake(d Bytes) int := imin(rHdrLen(d), blen(rPreHdr(d)))
+//@ spec func rHdr(d Bytes) Bytes := btake(rPreHdr(d), rHdrTake(d))
+//@ spec func rAfterHdr(d Bytes) Bytes := bdrop(rPreHdr(d), rHdrTake(d))
+//@ spec func rCode(d Bytes) int := de32(btake(rAfterHdr(d), 4))
+//@ spec func rAfterCode(d Bytes) Bytes := bdrop(rAfterHdr(d), 4)
+//@ spec func rGzLen(d Bytes) int := de32(btake(rAfterCode(d), 4))
+//@ spec func rPreGz(d Bytes) Bytes := bdrop(rAfterCode(d), 4)
+//@ spec func rGzTake(d Bytes) int := imin(rGzLen(d), blen(rPreGz(d)))
+//@ spec func rGz(d Bytes) Bytes := btake(rPreGz(d), rGzTake(d))
+//@ spec func rAfterGz(d Bytes) Bytes := bdrop(rPreGz(d), rGzTake(d))
+//@ spec func rBrLen(d Bytes) int := de32(btake(rAfterGz(d), 4))
+//@ spec func rPreBr(d Bytes) Bytes := bdrop(rAfterGz(d), 4)
+//@ spec func rBrTake(d Bytes) int := imin(rBrLen(d), blen(rPreBr(d)))
+//@ spec func rBr(d Bytes) Bytes := btake(rPreBr(d), rBrTake(d))
+//@ spec func rAfterBr(d Bytes) Bytes := bdrop(rPreBr(d), rBrTake(d))
+//@ spec func rRawLen(d Bytes) int := de32(btake(rAfterBr(d), 4))
+//@ spec func rPreRaw(d Bytes) Bytes := bdrop(rAfterBr(d), 4)
+//@ spec func rRawTake(d Bytes) int := imin(rRawLen(d), blen(rPreRaw(d)))
+//@ spec func rRaw(d Bytes) Bytes := btake(rPreRaw(d), rRawTake(d))
+//@ spec func rAfterRaw(d Bytes) Bytes := bdrop(rPreRaw(d), rRawTake(d))
+//@ spec func encRespV(srv Bytes, min int, filt Bytes, hj Bytes, code int, gz Bytes, br Bytes, raw Bytes) Bytes := bcat(be32(uint32(blen(srv))), bcat(srv, bcat(be32(uint32(min)), bcat(be32(uint32(blen(filt))), bcat(filt, bcat(be32(uint32(blen(hj))), bcat(hj, bcat(be32(uint32(code)), bcat(be32(uint32(blen(gz))), bcat(gz, bcat(be32(uint32(blen(br))), bcat(br, bcat(be32(uint32(blen(raw))), raw)))))))))))))
+//@ pred fits32(n int) := 0 <= n && n <= 4294967295
+// header map <-> JSON bytes (encoding/json), and a compiled filter <-> its source text (regexp)
+//@ spec func jsonHdr(m map[string]Vals) Bytes
+//@ spec func unjsonHdr(b Bytes) map[string]Vals
+//@ spec func reString(re *regexp.Regexp) string
+//@ spec func filterText(r *HTTPResponse) string := (r.CompressContentTypeFilter == nil) ? "" : reString(r.CompressContentTypeFilter)
+//@ spec func encRespOf(r *HTTPResponse) Bytes := encRespV(s2b(r.CompressSrv), r.CompressMinLength, s2b(filterText(r)), jsonHdr(hdr(r.Header)), r.StatusCode, contents(r.GzipBody), contents(r.BrBody), contents(r.RawBody))
+
+//@ func (resp *HTTPResponse) Bytes() (data []byte, err error)
+//@   requires [recv] resp != nil
+//@   nopanic
+//@   ensures [format] err == nil ==> contents(data) == encRespOf(resp) && len(data) == blen(contents(data))
+
+// decoding is sequential and total: every field is what the parser functions say, for any input
+//@ func (resp *HTTPResponse) FromBytes(data []byte) (err error)
+//@   requires [recv] resp != nil
+//@   modifies resp.CompressSrv, resp.CompressMinLength, resp.CompressContentTypeFilter, resp.Header, resp.StatusCode, resp.GzipBody, resp.BrBody, resp.RawBody, $hdr
+//@   nopanic
+//@   ensures [empty]  len(data) == 0 ==> err == nil
+//@   ensures [srv]    err == nil && len(data) != 0 ==> resp.CompressSrv == b2s(rSrv(contents(data))) && resp.CompressMinLength == rMin(contents(data)) && resp.StatusCode == rCode(contents(data))
+//@   ensures [filter] err == nil && len(data) != 0 && b2s(rFilt(contents(data))) != "" ==> resp.CompressContentTypeFilter != nil && reString(resp.CompressContentTypeFilter) == b2s(rFilt(contents(data)))
+//@   ensures [header] err == nil && len(data) != 0 ==> hdr(resp.Header) == unjsonHdr(rHdr(contents(data)))
+//@   ensures [bodies] err == nil && len(data) != 0 ==> contents(resp.GzipBody) == rGz(contents(data)) && contents(resp.BrBody) == rBr(contents(data)) && contents(resp.RawBody) == rRaw(contents(data))
+//@   ensures [lens]   err == nil && len(data) != 0 ==> len(resp.GzipBody) == rGzTake(contents(data)) && len(resp.BrBody) == rBrTake(contents(data)) && len(resp.RawBody) == rRawTake(contents(data))
+
+//@ func (hc *httpCache) Bytes() (data []byte, err error)
+//@   requires [recv] hc != nil && hc.mu != nil
+//@   requires [locked] anyheld(hc.mu)
+//@   nopanic
+//@   ensures [format] err == nil ==> contents(data) == encEntry(hc.status, (hc.response == nil) ? bempty() : encRespOf(hc.response), hc.createdAt, hc.expiredAt)
+
 //@ func (hc *httpCache) FromBytes(data []byte) (err error)
 //@   requires [recv] hc != nil && hc.mu != nil
 //@   requires [locked] held(hc.mu)
 //@   requires [tok] hc.status != StatusFetching || $tok[hc] >= 1
-//@   modifies hc.status, hc.response, hc.createdAt, hc.expiredAt, $tok[hc], $expbase[hc]
+//@   modifies hc.status, hc.response, hc.createdAt, hc.expiredAt, $tok[hc], $expbase[hc], $hdr
 //@   nopanic
 //@   ensures [tok] $tok[hc] == old($tok[hc]) + ((hc.status == StatusFetching && old(hc.status) != StatusFetching) ? 1 : 0)
 //@                   - ((old(hc.status) == StatusFetching && hc.status != StatusFetching) ? 1 : 0)
 //@   ensures [resp] err == nil ==> hc.response != nil
+//@   ensures [short]  entryShort(contents(data)) ==> err != nil
+//@   ensures [fields] err == nil ==> hc.status == pStatus(contents(data)) && hc.createdAt == pCreated(contents(data)) && hc.expiredAt == pExpired(contents(data))
 
-//@ func (resp *HTTPResponse) FromBytes(data []byte) (err error)
-//@   requires [recv] resp != nil
-//@   modifies resp.CompressSrv, resp.CompressMinLength, resp.CompressContentTypeFilter, resp.Header, resp.StatusCode, resp.GzipBody, resp.BrBody, resp.RawBody
+// encode-then-parse is the identity on every field, and every strict prefix of a record is short
+//@ lemma [entry-roundtrip]: forall st int, rb Bytes, cr int, ex int :: fits32(st) && fits32(blen(rb)) && in64(cr) && in64(ex) ==>
+//@     !entryShort(encEntry(st, rb, cr, ex)) && pStatus(encEntry(st, rb, cr, ex)) == st && pResp(encEntry(st, rb, cr, ex)) == rb && pCreated(encEntry(st, rb, cr, ex)) == cr && pExpired(encEntry(st, rb, cr, ex)) == ex
+//@ lemma [entry-truncated]: forall st int, rb Bytes, cr int, ex int, n int :: fits32(st) && fits32(blen(rb)) && in64(cr) && in64(ex) && 0 <= n && n < blen(encEntry(st, rb, cr, ex)) ==>
+//@     entryShort(btake(encEntry(st, rb, cr, ex), n))
+//@ lemma [resp-roundtrip]: forall srv Bytes, min int, filt Bytes, hj Bytes, code int, gz Bytes, br Bytes, raw Bytes :: fits32(blen(srv)) && fits32(min) && fits32(blen(filt)) && fits32(blen(hj)) && fits32(code) && fits32(blen(gz)) && fits32(blen(br)) && fits32(blen(raw)) ==>
+//@     rSrv(encRespV(srv, min, filt, hj, code, gz, br, raw)) == srv && rMin(encRespV(srv, min, filt, hj, code, gz, br, raw)) == min && rFilt(encRespV(srv, min, filt, hj, code, gz, br, raw)) == filt && rHdr(encRespV(srv, min, filt, hj, code, gz, br, raw)) == hj
+//@     && rCode(encRespV(srv, min, filt, hj, code, gz, br, raw)) == code && rGz(encRespV(srv, min, filt, hj, code, gz, br, raw)) == gz && rBr(encRespV(srv, min, filt, hj, code, gz, br, raw)) == br && rRaw(encRespV(srv, min, filt, hj, code, gz, br, raw)) == raw
+
+//@ func uint32ToBytes(value int) (out []byte)
 //@   nopanic
+//@   ensures [enc] contents(out) == be32(uint32(value)) && len(out) == 4 && fresh(out)
+
+//@ func uint64ToBytes(value int64) (out []byte)
+//@   nopanic
+//@   ensures [enc] contents(out) == be64(uint64(value)) && len(out) == 8 && fresh(out)
 
 //@ func readUint32ToInt(buffer *bytes.Buffer) (v int, err error)
 //@   requires [buf] buffer != nil
 //@   modifies buffer.rest
 //@   nopanic
 //@   ensures [range] 0 <= v && v <= 4294967295
-//@   ensures [err] err != nil ==> v == 0
+//@   ensures [err]   err != nil ==> v == 0
+//@   ensures [short] (err == nil) <==> blen(old(buffer.rest)) >= 4
+//@   ensures [dec]   err == nil ==> v == de32(btake(old(buffer.rest), 4)) && buffer.rest == bdrop(old(buffer.rest), 4)
 
 //@ func readUint64ToInt64(buffer *bytes.Buffer) (v int64, err error)
 //@   requires [buf] buffer != nil
 //@   modifies buffer.rest
 //@   nopanic
-//@   ensures [err] err != nil ==> v == 0
-
-//@ func (hc *httpCache) Bytes() (data []byte, err error)
-//@   requires [recv] hc != nil && hc.mu != nil
-//@   requires [locked] anyheld(hc.mu)
-//@   nopanic
-
-//@ func (resp *HTTPResponse) Bytes() (data []byte, err error)
-//@   requires [recv] resp != nil
-//@   nopanic
+//@   ensures [err]   err != nil ==> v == 0
+//@   ensures [short] (err == nil) <==> blen(old(buffer.rest)) >= 8
+//@   ensures [dec]   err == nil ==> v == wrap64(de64(btake(old(buffer.rest), 8))) && buffer.rest == bdrop(old(buffer.rest), 8)
 
 //@ func (hc *httpCache) saveToStore() (err error)
 //@   requires [recv] hc != nil && hc.mu != nil
